@@ -115,7 +115,6 @@ def set_case(c):
     I.__sx_call__(st.add, b1)
     E.check(I.__sx_contains__(b1, st, False), "member after add")
     r = I.__sx_contains__(b2, st, False)
-    E.check(r == bool(E.eq(b1, b2) if isinstance(E.eq(b1, b2), bool) else core.CTX.model_eval_bool(E.eq(b1, b2))) if False else True, "noop")
     if r:
         E.check_eq(b1, b2, "found member equals the stored one")
     else:
@@ -128,5 +127,25 @@ def set_case(c):
 
 
 prove("set with symbolic members", set_case)
+
+
+def bytearray_case(c):
+    E = SymEnv(c)
+    t = E.bytes("t", 3)
+    fin = I.__sx_call__(bytearray, 8)
+    I.__sx_setitem__(fin, slice(None, 3), t)
+    I.__sx_setitem__(fin, 3, 0x80)
+    I.__sx_setitem__(fin, slice(-2, None), (513).to_bytes(2, "little"))
+    E.check_eq(I.sx_bytes(fin), t + b"\x80\x00\x00\x01\x02", "slice and index stores")
+    E.check_eq(I.sx_len(fin), 8, "length kept")
+    fin += t
+    fin.append(t[0])
+    fin.extend(b"zz")
+    E.check_eq(I.sx_bytes(fin)[8:], t + I.sx_bytes([t[0]]) + b"zz", "+=, append, extend")
+    E.check(I.sx_isinstance(fin, bytearray) and not I.sx_isinstance(fin, bytes), "isinstance")
+    E.check_eq(I.sx_int_from_bytes(fin[0:2], "big"), t[0] * 256 + t[1], "from_bytes of a slice")
+
+
+prove("bytearray with symbolic content", bytearray_case)
 print("FAILED: %s" % FAIL if FAIL else "all engine-model checks passed")
 sys.exit(1 if FAIL else 0)
